@@ -699,8 +699,95 @@ def site_delete(fns):
 def c07(fns, tier, env):
     out = [site_update_record(fns, "::replace_record_if_current", False, file_hint="src/core/store/atomic.rs", ts_tuple_local="_5", identity_local="_3", witness=[("(f)", "c07_lost_increment")] + UPDATE_WITNESSES),
            site_update_record(fns, "::update_record_with_ttl", False),
-           site_delete(fns)]
+           site_delete(fns), site_atomic_increment(fns)]
     return finalize(out, env)
+
+
+def site_atomic_increment(fns):
+    f = mir.find(fns, "::atomic_increment_with_timestamp_and_ttl", "src/core/store/atomic.rs")
+    ob = Ob("site_atomic_increment", "atomic_increment_with_timestamp_and_ttl, one arbitrary iteration of its retry loop: the counter is replaced only under the entry "
+            "guard, only if the entry still IS the generation the old value was resolved from (pointer identity – no lost increment), only with ts_new > "
+            "current.timestamp; the new value is saturating(old value + delta) with the old value read from that generation; growth reserved against size(current); "
+            "successor linked, index republished, timestamp observed, reservation committed after the replacement; a new counter is created only in the Vacant arm "
+            "with the whole record size reserved first", "one arbitrary iteration (all locals havocked at the loop header)", f)
+    ts_idx = record_field_index(fns, "timestamp")
+    pure = PURE + ("::from_le_bytes", "::try_into", "::map_err", "::as_ref", "FeoxStore>::resolve_value", "::resolve_value")
+    it = Interp(f, loop_bound=1, pure=pure, max_paths=12000)
+    hdr = main_loop_header(f)
+    if hdr is None:
+        raise mir.MirError("retry loop not found")
+    delta = z3.BitVec("delta", 64)
+
+    def init(it_, st):
+        st["env"]["_3"] = delta
+    occ = vac = 0
+    for p in it.run(init, start=hdr, stop=(hdr,)):
+        ob.paths += 1
+        if p.status == "truncated":
+            ob.truncated += 1
+        if p.status not in ("return", "backedge"):
+            continue
+        ins = events(p, "OccupiedEntry::insert")
+        vins = events(p, "VacantEntry::insert_entry")
+        commits = events(p, "MemoryReservation::commit")
+        if not ins and not vins:
+            ob.must_hold(not commits, "no reservation is committed on a path that publishes nothing")
+            ob.must_hold(not events(p, "Record::link_successor") and not events(p, "::publish_to_tree") and not events(p, "::insert_into_tree"),
+                         "a path that publishes nothing leaves successor links and the ordered index alone")
+            continue
+        if ins:
+            occ += 1
+            e = ins[0]
+            cur = guarded_entry_value(it, p)
+            ob.must_hold(cur is not None, "replacement under the entry guard")
+            if cur is None:
+                continue
+            rv = events(p, "::resolve_value")
+            pe = [x for x in events(p, "Arc::ptr_eq") if idx_of(p, x) < idx_of(p, e)]
+            ob.must_hold(bool(rv) and bool(pe), "the old value is resolved and the entry's identity checked before the replacement")
+            if rv and pe:
+                ob.need(it, e.pc, pe[-1].ret, "the entry is replaced only if it is pointer-identical to the resolved generation")
+                ob.must_hold(contains(pe[-1].ret, it.as_u(rv[-1].ret)) and contains(pe[-1].ret, it.as_u(cur)),
+                             "the identity check compares the guarded entry with the generation the value was resolved from")
+            cr = [x for x in events(p, "counter_record") if idx_of(p, x) < idx_of(p, e)]
+            ob.must_hold(len(cr) == 1, "one new counter record")
+            if cr:
+                tsn = cr[0].args[2]
+                cur_ts = field(it, cur, ts_idx, z3.BitVecSort(64))
+                ob.need(it, e.pc, z3.UGT(tsn, cur_ts), "ts_new > current.timestamp at the replacement site")
+                if rv:
+                    ob.must_hold(contains(cr[0].args[1], it.as_u(rv[-1].ret)) and contains(cr[0].args[1], delta),
+                                 "the new value is computed from the resolved old value and delta")
+                ob.need(it, p.pc, it.as_u(e.args[1]) == it.as_u(cr[0].ret), "the published record is the new counter record")
+            calc = it.ctx.uf("fn:Record::calculate_size", [U], z3.BitVecSort(64))
+            res = [x for x in events(p, "::reserve_memory") if idx_of(p, x) < idx_of(p, e)]
+            crs = [x for x in events(p, "::calculate_record_size") if idx_of(p, x) < idx_of(p, e)]
+            ob.must_hold(len(res) == 1 and len(crs) >= 1, "growth reserved before the replacement")
+            if res and crs:
+                old_size, new_size = calc(it.as_u(cur)), crs[-1].ret
+                ob.need(it, p.pc, res[0].args[1] == z3.If(z3.UGE(new_size, old_size), new_size - old_size, z3.BitVecVal(0, 64)),
+                        "reserved == saturating(new_size - size(current entry))")
+            ls = events(p, "Record::link_successor")
+            ob.must_hold(len(ls) == 1 and idx_of(p, ls[0]) < idx_of(p, e), "successor linked before publication")
+            if ls:
+                ob.need(it, p.pc, it.as_u(ls[0].args[0]) == it.as_u(cur), "successor linked on the current entry")
+            ob.must_hold(len([x for x in events(p, "::publish_to_tree") if idx_of(p, x) > idx_of(p, e)]) == 1, "ordered index republished after the hash table")
+            ob.must_hold(len([x for x in events(p, "::observe_published_timestamp") if idx_of(p, x) > idx_of(p, e)]) == 1, "published timestamp observed")
+            ob.must_hold(len([x for x in commits if idx_of(p, x) > idx_of(p, e)]) == 1, "reservation committed after publication")
+        if vins:
+            vac += 1
+            e = vins[0]
+            res = [x for x in events(p, "::reserve_memory") if idx_of(p, x) < idx_of(p, e)]
+            crs = [x for x in events(p, "::calculate_record_size") if idx_of(p, x) < idx_of(p, e)]
+            ob.must_hold(len(res) == 1 and len(crs) >= 1, "whole record size reserved before the entry is created")
+            if res and crs:
+                ob.need(it, p.pc, res[0].args[1] == crs[-1].ret, "reserved == calculate_record_size(key, 8)")
+            cnt = [x for x in p.events if x.kind == "call" and "Atomic::<u32>::fetch_add" in getattr(x, "raw", "") and idx_of(p, x) > idx_of(p, e)]
+            ob.must_hold(len(cnt) == 1, "record_count + 1 after creation")
+            ob.must_hold(len([x for x in commits if idx_of(p, x) > idx_of(p, e)]) == 1, "reservation committed after creation")
+            ob.must_hold(len([x for x in events(p, "::insert_into_tree") if idx_of(p, x) > idx_of(p, e)]) == 1, "ordered index filled after the hash table")
+    ob.must_hold(occ >= 1 and vac >= 1, "both the replace and the create sites were reached")
+    return ob.result(it, witness=[("pointer-identical", "c07_lost_increment"), ("", None)])
 
 
 def sites_c12(fns):
